@@ -362,6 +362,11 @@ fn run_job(args: &Args, job: &Value, seq: usize) -> Value {
     }
     let rootpath = tree::join(&sb, rootrel);
     let op = job["op"].clone();
+    if op["k"].as_str() == Some("reopen_unshared") {
+        out["res"] = reopen_unshared(&rootpath, &sb, &op);
+        let _ = std::fs::remove_dir_all(&sb);
+        return out;
+    }
     let api = job.get("api").and_then(|a| a.as_str()).unwrap_or("rust").to_string();
     let rflags = job.get("rflags").and_then(|r| r.as_u64()).unwrap_or(0);
     let snap = job.get("snap").and_then(|s| s.as_str()).unwrap_or("none").to_string();
@@ -385,6 +390,7 @@ fn run_job(args: &Args, job: &Value, seq: usize) -> Value {
     // reopen: resolve the handle first (untraced), optionally move it to a given fd number,
     // then apply the history.
     let mut handle: Option<Arc<Handle>> = None;
+    let mut restore_fd: Option<(i32, i32)> = None;
     if k == "reopen" {
         let r = root.as_ref().unwrap();
         let p = bpath(&op, "path");
@@ -402,6 +408,7 @@ fn run_job(args: &Args, job: &Value, seq: usize) -> Value {
                             ofd = OwnedFd::from_raw_fd(want);
                         }
                         out["saved_fd"] = json!(saved);
+                        restore_fd = Some((saved, want));
                     }
                 }
                 out["handle"] = describe_fd(ofd.as_raw_fd());
@@ -480,6 +487,16 @@ fn run_job(args: &Args, job: &Value, seq: usize) -> Value {
     if let Some(d) = &snapdir {
         out["snap_before"] = json!(tree::snapshot(d));
     }
+    // optionally make descriptor 0 the lowest free number for the library
+    let mut saved0 = -1;
+    if job.get("free_fd0").and_then(|b| b.as_bool()).unwrap_or(false) {
+        unsafe {
+            saved0 = libc::fcntl(0, libc::F_DUPFD_CLOEXEC, 850);
+            if saved0 >= 0 {
+                libc::close(0);
+            }
+        }
+    }
     let fds_before = tree::fd_table(&[]);
     let mut mon = PolicyMon::new(&args.deny, job.get("policy").unwrap_or(&Value::Null), &sb);
     let root2 = root.clone();
@@ -494,9 +511,10 @@ fn run_job(args: &Args, job: &Value, seq: usize) -> Value {
         use std::os::unix::io::AsFd;
         h.as_fd().as_raw_fd()
     });
+    let api_is_c = api == "c";
     let (res, trace) = sup::traced(
         move || {
-            if api == "c" {
+            if api_is_c {
                 capi::run_c(root_fd, handle_fd, &op2)
             } else {
                 run_rust(
@@ -533,6 +551,29 @@ fn run_job(args: &Args, job: &Value, seq: usize) -> Value {
             out["res"] = json!({"panic": msg});
         }
     }
+    // stdin goes back to descriptor 0 (after a returned descriptor 0 was described and closed above)
+    if saved0 >= 0 {
+        unsafe {
+            libc::dup3(saved0, 0, 0);
+            libc::close(saved0);
+        }
+    }
+    // reopen: the kernel's own answer for the same request (raw open of the magic-link)
+    if k == "reopen" {
+        let rawfl = op["flags"].as_i64().unwrap_or(0) as i32;
+        let creation = rawfl & (libc::O_CREAT | libc::O_EXCL) != 0 || rawfl & libc::O_TMPFILE == libc::O_TMPFILE;
+        if let (Some(hfd), false) = (handle_fd, creation) {
+            let flags = (op["flags"].as_i64().unwrap_or(0) as i32 & !libc::O_NOFOLLOW) | libc::O_CLOEXEC | libc::O_NOCTTY;
+            let p = std::ffi::CString::new(format!("/proc/self/fd/{hfd}")).unwrap();
+            let fd = unsafe { libc::open(p.as_ptr(), flags) };
+            if fd >= 0 {
+                out["oracle"] = json!({"ok": describe_fd(fd)});
+                unsafe { libc::close(fd) };
+            } else {
+                out["oracle"] = json!({"errno": std::io::Error::last_os_error().raw_os_error().unwrap_or(0)});
+            }
+        }
+    }
     if want_trace {
         out["trace"] = json!(trace.events);
     } else {
@@ -547,11 +588,89 @@ fn run_job(args: &Args, job: &Value, seq: usize) -> Value {
     drop(root);
     drop(handle);
     drop(procfs);
+    // put the original occupant of a borrowed descriptor number back
+    if let Some((saved, want)) = restore_fd {
+        if saved >= 0 {
+            unsafe {
+                libc::dup3(saved, want, 0);
+                libc::close(saved);
+            }
+        }
+    }
     // make everything removable again
     let _ = std::process::Command::new("chmod").arg("-R").arg("u+rwx").arg(&sb).status();
     let _ = std::fs::remove_dir_all(&sb);
     out["wall_ms"] = json!(t0.elapsed().as_millis() as u64);
     out
+}
+
+/// reopen from a thread with a private descriptor table (unshare(CLONE_FILES)):
+/// the thread-group leader holds a decoy file at the same descriptor number.
+/// Not traced (the supervisor shares the leader's table, not the worker's).
+fn reopen_unshared(rootpath: &Path, sb: &Path, op: &Value) -> Value {
+    let rootpath = rootpath.to_path_buf();
+    let decoy_path = sb.join("decoy_for_leader");
+    std::fs::write(&decoy_path, b"DECOY").unwrap();
+    let p = bpath(op, "path");
+    let flags = op["flags"].as_i64().unwrap_or(0) as i32;
+    let (tx, rx) = std::sync::mpsc::channel::<i32>();
+    let (tx2, rx2) = std::sync::mpsc::channel::<()>();
+    let th = std::thread::spawn(move || -> Value {
+        unsafe {
+            if libc::unshare(libc::CLONE_FILES) != 0 {
+                return json!({"setup_err": "unshare(CLONE_FILES) failed"});
+            }
+        }
+        let root = match Root::open(&rootpath) {
+            Ok(r) => r,
+            Err(e) => return json!({"setup_err": e.to_string()}),
+        };
+        let h = match root.resolve(&p) {
+            Ok(h) => h,
+            Err(e) => return json!({"setup_err": e.to_string()}),
+        };
+        use std::os::unix::io::AsFd;
+        let hfd = h.as_fd().as_raw_fd();
+        let hd = describe_fd(hfd);
+        tx.send(hfd).unwrap();
+        rx2.recv().unwrap();
+        let r = match h.reopen(OpenFlags::from_bits_retain(flags)) {
+            Ok(f) => {
+                let fd: OwnedFd = f.into();
+                json!({"ok": describe_fd(fd.as_raw_fd())})
+            }
+            Err(e) => outcome_json(&err_outcome(e)),
+        };
+        json!({"handle": hd, "res": r})
+    });
+    // leader: put a decoy at the same number in ITS table
+    let mut decoy_fd = -1;
+    if let Ok(hfd) = rx.recv() {
+        unsafe {
+            let c = tree::cpath(&decoy_path);
+            let d = libc::open(c.as_ptr(), libc::O_RDONLY | libc::O_CLOEXEC);
+            if d >= 0 {
+                let saved = libc::fcntl(hfd, libc::F_DUPFD_CLOEXEC, 800);
+                libc::dup3(d, hfd, libc::O_CLOEXEC);
+                libc::close(d);
+                decoy_fd = hfd;
+                let _ = tx2.send(());
+                let v = th.join().unwrap_or(json!({"panic": "thread"}));
+                // restore
+                if saved >= 0 {
+                    libc::dup3(saved, hfd, libc::O_CLOEXEC);
+                    libc::close(saved);
+                } else {
+                    libc::close(hfd);
+                }
+                let mut v = v;
+                v["decoy_fd"] = json!(decoy_fd);
+                return v;
+            }
+        }
+        let _ = tx2.send(());
+    }
+    th.join().unwrap_or(json!({"panic": "thread"}))
 }
 
 fn unreachable_root() -> &'static Root {
